@@ -32,10 +32,12 @@ VARIABLES
   fuzzy,      \* [E -> BOOLEAN]  in the attic, and its participant was disposed while lost: the statement leaves open
               \*                  whether such an endpoint is known again when the participant reappears
   stale,      \* [E -> BOOLEAN]  named deviation S8: restored from the attic but not re-matched until re-announced
+  cls,        \* [E -> BOOLEAN]  QoS of the endpoint's LATEST announcement is request/offered compatible with the local endpoint
+  haveW, haveR, \* the application has created its local writer / reader (they may be created after discovery has run)
   totW, totR, \* last total counts reported to the local writer / reader
   viol
 
-dabsVars == <<now, known, lastSign, lease, ann, attic, fuzzy, stale, totW, totR, viol>>
+dabsVars == <<now, known, lastSign, lease, ann, attic, fuzzy, stale, cls, haveW, haveR, totW, totR, viol>>
 
 \* the endpoint table used by the `disc` driver (configurations substitute these for the constants)
 \*  e  owner kind   topic QoS                     e  owner kind   topic QoS
@@ -48,15 +50,23 @@ IsReaderDef == <<TRUE, FALSE, TRUE, TRUE, FALSE, FALSE, FALSE, TRUE>>
 OnTopicDef == <<TRUE, TRUE, TRUE, TRUE, TRUE, FALSE, TRUE, TRUE>>
 CompatibleDef == <<TRUE, TRUE, FALSE, TRUE, TRUE, TRUE, TRUE, TRUE>>
 
-DAbsInit ==
+\* endpoints whose QoS an announcement may change (only while the local endpoint they concern does not exist yet: what
+\* happens to an existing match when a peer re-announces itself with a QoS that no longer fits is left open here)
+Mutable == {7, 8}
+
+DAbsInitL(late) ==
   /\ now = 0
   /\ known = [p \in P |-> FALSE] /\ lastSign = [p \in P |-> 0] /\ lease = [p \in P |-> DefaultLease]
   /\ ann = [e \in E |-> FALSE] /\ attic = [e \in E |-> FALSE] /\ fuzzy = [e \in E |-> FALSE] /\ stale = [e \in E |-> FALSE]
+  /\ cls = [e \in E |-> Compatible[e]] /\ haveW = ~late /\ haveR = ~late
   /\ totW = 0 /\ totR = 0 /\ viol = {}
+DAbsInit == DAbsInitL(FALSE)
 
-\* the sets the property speaks of
-ShouldMatchW(a, st) == {e \in E : a[e] /\ ~st[e] /\ IsReader[e] /\ OnTopic[e] /\ Compatible[e]}
-ShouldMatchR(a, st) == {e \in E : a[e] /\ ~st[e] /\ ~IsReader[e] /\ OnTopic[e] /\ Compatible[e]}
+\* the sets the property speaks of (hw / hr: the local writer / reader exists; c: QoS class per endpoint)
+ShouldW(a, st, c, hw) == IF hw THEN {e \in E : a[e] /\ ~st[e] /\ IsReader[e] /\ OnTopic[e] /\ c[e]} ELSE {}
+ShouldR(a, st, c, hr) == IF hr THEN {e \in E : a[e] /\ ~st[e] /\ ~IsReader[e] /\ OnTopic[e] /\ c[e]} ELSE {}
+ShouldMatchW(a, st) == ShouldW(a, st, cls, haveW)
+ShouldMatchR(a, st) == ShouldR(a, st, cls, haveR)
 Silent(p) == now - lastSign[p] > lease[p]
 
 (* ------------------------------------------------------------ judging *)
@@ -81,19 +91,29 @@ SideViol(tag, oldSet, newSet, obsSet, evs, prevTot) ==
 
 LastTot(evs, prev) == LET m == MatchedEvents(evs) IN IF Len(m) = 0 THEN prev ELSE m[Len(m)].tot
 
-\* common judgement of one step from ann to annN
-Judge(annN, stN, obs) ==
-     SideViol("writer", ShouldMatchW(ann, stale), ShouldMatchW(annN, stN), obs.wm, obs.ws, totW)
-  \cup SideViol("reader", ShouldMatchR(ann, stale), ShouldMatchR(annN, stN), obs.rm, obs.rs, totR)
+\* common judgement of one step from (ann, stale, cls, haveW, haveR) to (annN, stN, cN, hwN, hrN)
+JudgeL(annN, stN, cN, hwN, hrN, obs) ==
+     SideViol("writer", ShouldMatchW(ann, stale), ShouldW(annN, stN, cN, hwN), obs.wm, obs.ws, totW)
+  \cup SideViol("reader", ShouldMatchR(ann, stale), ShouldR(annN, stN, cN, hrN), obs.rm, obs.rs, totR)
+  \* what is announced and whose participant has not been lost stays in the tables (a local endpoint created later is
+  \* matched from them): C12 "a live one never" is dropped, endpoints included
+  \cup (IF \E e \in E : annN[e] /\ e \notin obs.ext THEN {"C12_endpoint_of_live_participant_forgotten"} ELSE {})
+  \* C10, seen from discovery: the verdict is taken on the QoS the endpoint announced LAST
+  \cup (IF \E e \in obs.wm \cup obs.rm : ~cN[e] /\ e \notin ShouldMatchW(ann, stale) \cup ShouldMatchR(ann, stale)
+          THEN {"C10_matched_although_latest_announced_qos_incompatible"} ELSE {})
+  \cup (IF \E i \in DOMAIN obs.ws : obs.ws[i].k = "IncompatibleQos" /\ obs.ws[i].e \in E /\ cN[obs.ws[i].e] THEN {"C10_incompatible_qos_reported_for_compatible_endpoint"} ELSE {})
+  \cup (IF \E i \in DOMAIN obs.rs : obs.rs[i].k = "IncompatibleQos" /\ obs.rs[i].e \in E /\ cN[obs.rs[i].e] THEN {"C10_incompatible_qos_reported_for_compatible_endpoint"} ELSE {})
 
-Finish(annN, stN, obs, extra) ==
+FinishL(annN, stN, cN, hwN, hrN, obs, extra) ==
   /\ ann' = annN
   /\ stale' = stN
+  /\ cls' = cN /\ haveW' = hwN /\ haveR' = hrN
   /\ totW' = LastTot(obs.ws, totW) /\ totR' = LastTot(obs.rs, totR)
-  /\ viol' = viol \cup Judge(annN, stN, obs) \cup extra
+  /\ viol' = viol \cup JudgeL(annN, stN, cN, hwN, hrN, obs) \cup extra
+Finish(annN, stN, obs, extra) == FinishL(annN, stN, cls, haveW, haveR, obs, extra)
 
 (* ------------------------------------------------------------- events *)
-AbsTick(dt) == now' = now + dt /\ UNCHANGED <<known, lastSign, lease, ann, attic, fuzzy, stale, totW, totR, viol>>
+AbsTick(dt) == now' = now + dt /\ UNCHANGED <<known, lastSign, lease, ann, attic, fuzzy, stale, cls, haveW, haveR, totW, totR, viol>>
 
 \* SPDP announcement.  A participant that had timed out and reappears: its endpoints become known again.
 \* devS8: the named deviation is in force (listed as known finding)
@@ -142,14 +162,23 @@ AbsDisposeP(p, obs) ==
      /\ Finish(annN, [e \in E |-> stale[e] /\ Owner[e] # p], obs, x1 \cup x2 \cup x3)
      /\ UNCHANGED <<now, lastSign, lease>>
 
-\* SEDP announcement (or re-announcement) of endpoint e with the QoS class it always has
-AbsAnnounce(e, obs) ==
+\* SEDP announcement (or re-announcement) of endpoint e; c: its QoS is compatible with the local endpoint it concerns
+AbsAnnounceQ(e, c, obs) ==
   LET annN == [ann EXCEPT ![e] = TRUE]
+      cN == [cls EXCEPT ![e] = c]
       evs == IF IsReader[e] THEN obs.ws ELSE obs.rs
-      x1 == IF OnTopic[e] /\ ~Compatible[e] /\ ~(\E i \in DOMAIN evs : evs[i].k = "IncompatibleQos")
+      mine == IF IsReader[e] THEN haveW ELSE haveR
+      x1 == IF mine /\ OnTopic[e] /\ ~c /\ ~(\E i \in DOMAIN evs : evs[i].k = "IncompatibleQos")
               THEN {"C11_no_incompatible_qos_event"} ELSE {}
-  IN /\ Finish(annN, [stale EXCEPT ![e] = FALSE], obs, x1)
+  IN /\ FinishL(annN, [stale EXCEPT ![e] = FALSE], cN, haveW, haveR, obs, x1)
      /\ UNCHANGED <<now, known, lastSign, lease, attic, fuzzy>>
+AbsAnnounce(e, obs) == AbsAnnounceQ(e, cls[e], obs)
+
+\* the application creates its DataWriter (side "w") or DataReader ("r") now: it is matched with what discovery already
+\* knows, judged by the QoS each endpoint announced last
+AbsCreateLocal(side, obs) ==
+  /\ FinishL(ann, stale, cls, haveW \/ side = "w", haveR \/ side = "r", obs, {})
+  /\ UNCHANGED <<now, known, lastSign, lease, attic, fuzzy>>
 
 AbsDisposeE(e, obs) ==
   /\ Finish([ann EXCEPT ![e] = FALSE], [stale EXCEPT ![e] = FALSE], obs, {})
